@@ -8,7 +8,7 @@ from vlib import log
 # which conjunct classes of the trace specification speak for which property (used to describe a divergence)
 FOCUS = {
     "C01": dict(gens=[("file", 22), ("keys", 20)], quick=80, thorough=1500, what="export/tamper/import histories over two wallets"),
-    "C02": dict(gens=[("core", 16)], quick=60, thorough=1500, what="all wallet calls with restart projection after every step"),
+    "C02": dict(gens=[("core", 16)], quick=110, thorough=1500, what="all wallet calls with restart projection after every step"),
     "C03": dict(gens=[("core", 16), ("file", 20)], quick=80, thorough=1500, what="passphrase arguments of every class; secrets in memory while locked"),
     "C04": dict(gens=[("core", 14), ("file", 14)], quick=70, thorough=800, what="clear-text scan of store, exports and log after every step"),
     "C05": dict(gens=[("core", 16), ("keys", 22)], quick=90, thorough=1200, what="every issued key signs verifiably iff unlocked, also after export / delete / import"),
